@@ -50,3 +50,23 @@ def corpus1():
         return json.load(open(p))
     except FileNotFoundError:
         return []
+
+
+def test_texts(maxlen=1200):
+    """every multi-line ASCII string literal of the repository's fparser2/reader tests (valid and
+    invalid programs, reader layouts ...)"""
+    src = os.environ.get("FPARSER_SRC", "/repo/src")
+    out = []
+    seen = set()
+    files = glob.glob(src + "/fparser/two/tests/**/*.py", recursive=True) + glob.glob(src + "/fparser/common/tests/*.py")
+    for f in sorted(files):
+        try:
+            tree = ast.parse(open(f).read())
+        except Exception:
+            continue
+        for n in ast.walk(tree):
+            if isinstance(n, ast.Constant) and isinstance(n.value, str) and "\n" in n.value and 4 < len(n.value) < maxlen and n.value.isascii():
+                if n.value not in seen:
+                    seen.add(n.value)
+                    out.append(n.value)
+    return out
